@@ -126,6 +126,34 @@ func init() {
 				os.WriteFile(filepath.Join(base, "outdir", "ref.yaml"), []byte(f.content(canary)), 0o644)
 				os.Symlink(filepath.Join("..", "outdir", "deep"), filepath.Join(root, "linkdir-deep"))
 			}
+			if onDisk && r.Intn(5) == 0 {
+				// ---- a BASE reached through a directory link: the new root is judged after the link is resolved; a root at
+				// or above a root in use is a cycle.  (The ancestor has a kustomization of its own that does not come back
+				// here, so that even a loader that misses the cycle terminates.)
+				os.WriteFile(filepath.Join(base, "kustomization.yaml"), []byte("resources:\n- outside-cm.yaml\n"), 0o644)
+				os.WriteFile(filepath.Join(base, "outside-cm.yaml"), []byte("apiVersion: v1\nkind: ConfigMap\nmetadata:\n  name: "+canary+"\n"), 0o644)
+				os.MkdirAll(filepath.Join(root, "sub", "inner"), 0o755)
+				os.WriteFile(filepath.Join(root, "sub", "inner", "kustomization.yaml"), []byte("resources:\n- cm.yaml\n"), 0o644)
+				os.WriteFile(filepath.Join(root, "sub", "inner", "cm.yaml"), []byte("apiVersion: v1\nkind: ConfigMap\nmetadata:\n  name: inner\n"), 0o644)
+				os.Symlink(filepath.Join("..", ".."), filepath.Join(root, "sub", "up2"))
+				os.Symlink(filepath.Join("sub", "inner"), filepath.Join(root, "link-inner"))
+				bp := pickS(r, []string{"linkdir-out", "sub/up2", "linkdir-out/.", "sub/../linkdir-out", "link-inner", "sub/inner", "sub/up2/root/sub/inner", ".."})
+				os.WriteFile(filepath.Join(root, "kustomization.yaml"), []byte("resources:\n- inside.yaml\n- "+bp+"\n"), 0o644)
+				out, err, pnc := safeBuild(func() (string, error) { return runBuild(fs, root, nil) })
+				rd, _ := filepath.EvalSymlinks(filepath.Join(root, bp))
+				rr, _ := filepath.EvalSymlinks(root)
+				above := rd == rr || strings.HasPrefix(rr, rd+string(filepath.Separator))
+				in := map[string]interface{}{"field": "resources(base)", "path": bp, "fs": "disk", "resolves_to": rd}
+				o.note(fmt.Sprintf("base-above=%v-ok=%v", above, err == nil && pnc == nil), in)
+				if pnc == nil && err == nil && above {
+					o.fail("base-at-or-above-root-accepted", fmt.Sprintf("base %q resolves to %s, at or above the root %s in use, and the build succeeds", bp, rd, rr), cs, in, tailStr(out, 300), nil)
+				}
+				if pnc == nil && err != nil && !above {
+					o.fail("valid-base-rejected", fmt.Sprintf("base %q resolves to %s below the root and is rejected: %v", bp, rd, err), cs, in, nil, nil)
+				}
+				os.RemoveAll(base)
+				continue
+			}
 			fs.WriteFile(filepath.Join(root, "kustomization.yaml"), []byte(f.kust(p)))
 			out, err, pnc := safeBuild(func() (string, error) {
 				return runBuild(fs, root, func(op *krusty.Options) { op.PluginConfig.BpLoadingOptions = 1 })
